@@ -32,6 +32,7 @@
   VERSION0 / VERSION1 — see the engine's `assumptions`.
 -/
 import PestModel.Lemmas.CharSet
+import PestModel.CharClass
 import PestModel.Interp
 import PestModel.Gen
 import PestModel.Opt
@@ -68,18 +69,6 @@ theorem ascii_rules_built_from_map : asciiRuleExprs = asciiRuleMap := rfl
 theorem any_body : anyBody = "_Any" := rfl
 
 /-! ### NEWLINE -/
-
-/-- an ordered choice of string literals: end position of the first alternative that is a
-    prefix of the input at `pos` (what `Choice(String…)` does with terminals) -/
-def matchFirst (inp : Input) (alts : List Str) (pos : Nat) : Option Nat :=
-  (alts.find? (startsWithAt inp · pos)).map (pos + ·.length)
-
-/-- pest: `NEWLINE = "\n" | "\r\n" | "\r"` — LF, or CR LF taken together, or a lone CR -/
-def specNewline (inp : Input) (pos : Nat) : Option Nat :=
-  match inp[pos]? with
-  | some 10 => some (pos + 1)
-  | some 13 => if inp[pos + 1]? = some 10 then some (pos + 2) else some (pos + 1)
-  | _ => none
 
 theorem getElem?_some_lt {inp : Input} {pos : Nat} {d : CP} (h : inp[pos]? = some d) :
     pos < inp.size := by
@@ -201,25 +190,6 @@ example : classMem (mergeCharClass [] [(97, 99), (101, 102)]) 100 = false := by 
 example : mergeCharClass [100, 98, 100] [(102, 101), (97, 99)] = ([100], [(97, 99), (101, 102)]) := by decide
 
 /-! ### the class `build_optimized_pattern` writes -/
-
-/-- `char_class_parts`: a one-character `^"x"` contributes `x.upper()` and `x.lower()`, a
-    one-character `"x"` contributes `x` (the model folds ASCII letters only: see the engine's
-    assumptions for non-ASCII literals) -/
-def classSingles : List Alt → List Nat
-  | [] => []
-  | .lit [x] true :: r => L1.asciiUpper x :: asciiLower x :: classSingles r
-  | .lit [x] false :: r => x :: classSingles r
-  | _ :: r => classSingles r
-
-/-- `ranges`: the `ChoiceRange`s, as written -/
-def classRanges : List Alt → List Iv
-  | [] => []
-  | .range a b :: r => (a, b) :: classRanges r
-  | _ :: r => classRanges r
-
-/-- the class part of `build_optimized_pattern(choices)` -/
-def buildClass (alts : List Alt) : List Nat × List Iv :=
-  mergeCharClass (classSingles alts) (classRanges alts)
 
 theorem classAccepts_cons (a : Alt) (alts : List Alt) (c : CP) :
     L1.classAccepts (a :: alts) c = (L1.classAccepts [a] c || L1.classAccepts alts c) := by
